@@ -45,7 +45,7 @@ def exec_bms(scn):
     lines = concretize(scn["file"], r, merge=(v % 2 == 1), shuffle=(v % 3 != 0), lower=False, late_headers=(v % 7 == 5))
     ftok = lex(lines)
     rec = {"id": scn["id"] + "/read", "op": "read", "cls": f"bms.read.{scn['layout']}.{'ordered' if v % 3 == 0 else 'shuffled'}",
-           "layout": scn["layout"], "exc": "", "file": ftok, "chart": {}}
+           "layout": scn["layout"], "exc": "", "file": ftok, "chart": {}, "slack": 0}
     try:
         if v % 4 == 3:
             fd, path = tempfile.mkstemp(suffix=".bms")
@@ -58,6 +58,39 @@ def exec_bms(scn):
         else:
             m = BMSMap.read(lines, layout_of(scn["layout"]))
         rec["chart"] = proj_chart(m)
+    except ProjectionError as e:
+        rec["exc"] = "Projection:" + str(e)
+    except Exception as e:
+        rec["exc"] = exc_name(e)
+    return [rec]
+
+
+def bundled_scenarios(tier):
+    """prefixes (measures < K) of the repository's bundled BMS maps that are inside the property's domain
+    (no channel 02 lines): real-world headers, 36-base ids, merged lines"""
+    import glob
+    import os
+    import re
+    from harness.common import REPO
+    out = []
+    for f in sorted(glob.glob(os.path.join(REPO, "rsc", "maps", "bms", "*"))):
+        with open(f, "rb") as fh:
+            text = fh.read().decode("shift_jis", errors="replace")
+        lines = [ln.strip() for ln in text.replace("\r\n", "\n").split("\n")]
+        if any(re.match(r"^#\d{3}02:", ln) for ln in lines):
+            continue
+        for K in ((6, 14) if tier == "quick" else (4, 8, 16, 32, 64)):
+            keep = [ln for ln in lines if not re.match(r"^#\d{3}[0-9A-Za-z]{2}:", ln) or int(ln[1:4]) < K]
+            out.append({"id": f"b.{os.path.basename(f)}.{K}", "lines": keep, "layout": "BME", "slack": 2 * K + 2})
+    return out
+
+
+def exec_bundled(scn):
+    from reamber.bms.BMSMap import BMSMap
+    rec = {"id": scn["id"] + "/read", "op": "read", "cls": "bms.read.bundled", "layout": scn["layout"], "exc": "",
+           "file": lex(scn["lines"]), "chart": {}, "slack": scn["slack"]}
+    try:
+        rec["chart"] = proj_chart(BMSMap.read(scn["lines"], layout_of(scn["layout"])))
     except ProjectionError as e:
         rec["exc"] = "Projection:" + str(e)
     except Exception as e:
